@@ -122,6 +122,7 @@ fn main() {
                 "feemult" => smallstreams::feemult(&mut r, count, thorough, &mut out),
                 "confirm" => smallstreams::confirm(&mut r, count, thorough, &mut out),
                 "merkle" => smallstreams::merkle(&mut r, count, thorough, &mut out),
+                "stdcode" => smallstreams::stdcode_stream(&mut r, count, thorough, &mut out),
                 "apply" | "seal" | "chain" | "mint" | "hostile" | "cov" | "stake" | "faucet" | "activation" => {
                     let em = match stream {
                         "apply" => statestream::Emphasis { mutate: 300, pool_ops: 6, stake_ops: 8, mint_ops: 8, batches: 0, blocks: 2, chain_ops: false, twins: 2, epoch_edges: 0, faucets: 8, tip_edges: 0 },
